@@ -84,7 +84,6 @@ Fixpoint expired_start (acts : list start_act) (member cancelled selfc : bool) :
   | [] => None
   | SA_cancel :: r => expired_start r member true (selfc || member)     (* Task.cancel of the members *)
   | SA_raise :: _ => Some (cancelled, selfc)
-  | _ :: r => expired_start r member cancelled selfc
   end.
 Fixpoint expired_enter (order : list cm) (acts : list start_act) (member : bool) : option (bool * bool) :=
   match order with
